@@ -299,6 +299,10 @@ class C16(Prop):
                         gm = gp.read(fn, env=env)
                         gm.optimize()
                         st_, val = gm.Status, (gm.ObjVal if gm.Status == 2 else None)
+                        xfile = None
+                        if gm.Status == 2:
+                            byname = {v.VarName: v.X for v in gm.getVars()}
+                            xfile = np.array([byname.get('x%d' % (j + 1), 0.0) for j in range(f.linear.shape[1])])
                     except gp.GurobiError as ge:
                         return Outcome.fail('reader_rejects', 'gurobipy.read rejects the exported file: %s' % ge, labels)
                     finally:
@@ -311,12 +315,22 @@ class C16(Prop):
                 except OSError:
                     pass
             direct = None if sol is None or sol.x is None or np.isnan(sol.objval) else float(sol.objval)
+            if st_ not in (2, 3, 4, 5):
+                return Outcome.inconclusive('Gurobi status %s on the exported file (neither optimal nor a certificate)' % st_, labels)
             if (val is None) != (direct is None):
                 return Outcome.fail('solve_status', 'exported file: %s, formula solved directly: %s' % (
                     'optimum %r' % val if val is not None else 'status %s' % st_, direct), labels)
             if val is not None:
                 tol = 1e-6 if case['fam'] in ('lp', 'milp') else 1e-4
                 if abs(val - direct) > tol * (1 + abs(direct)):
+                    if case['fam'] in ('soc', 'misoc') and xfile is not None:
+                        # the file's entries were already compared with the formula one by one; two conic solves of the same program
+                        # may still differ by solver accuracy. The point Gurobi found for the *file* is tested against the *formula*:
+                        # if it is feasible there, the difference is not evidence of an export defect
+                        from vf.props.c11 import check_formula
+                        if check_formula(f, xfile, 1e-5) is None:
+                            return Outcome.inconclusive('the optimum of the exported file is a feasible point of the formula: the two Gurobi runs '
+                                                        'differ by solver accuracy', labels + ['solver_accuracy'])
                     if case['fam'] in ('soc', 'misoc'):
                         from vf.props.c11 import ill_posed
                         if ill_posed([('gurobi', True, True, direct, sol, f)], tol):
